@@ -514,12 +514,41 @@ func TimeMatrix(mk func(*World) System, res *vfh.Result, profile string) error {
 				life time.Duration
 				cls  string
 			}
+			never := -time.Nanosecond // lifetime of something that is never acceptable in that slot
+			emptySig := func() []byte {
+				sg, _ := keys.Priv["kA"].Sign(Payload("cli", nil, keys.PubB["kS"], host))
+				return sg
+			}
+			csPk := []param{{k: "challenge-server", txt: aNonceStr}, {k: "public-key", raw: keys.PubB["kA"]}}
 			for _, pr := range []probe{
 				{"server-initiated challenge state", vh(si, true), ChallengeTTL, "srv-accepts-expired-challenge"},
 				{"client-initiated challenge state", vh(ci, false), ChallengeTTL, "srv-accepts-expired-challenge"},
 				{"bearer token", compose([]param{{k: "bearer", txt: token}}), ttl, "srv-accepts-expired-token"},
+				// mixed-state headers: the same token next to the parameters of the other states
+				{"bearer token + challenge-server + public-key", compose(append([]param{{k: "bearer", txt: token}}, csPk...)), ttl, "srv-accepts-expired-token"},
+				{"bearer token + challenge-server + public-key + opaque", compose(append([]param{{k: "bearer", txt: token}, {k: "opaque", txt: si["opaque"]}}, csPk...)), ttl, "srv-accepts-expired-token"},
+				{"bearer token + sig", compose([]param{{k: "bearer", txt: token}, {k: "sig", raw: emptySig()}}), ttl, "srv-accepts-expired-token"},
+				{"challenge state + sig + bearer token", vh(si, true) + `, bearer="` + token + `"`, ChallengeTTL, "srv-accepts-expired-challenge"},
+				// cross-field reuse: every blob in the slot it was not made for
+				{"server-initiated challenge state as bearer", compose([]param{{k: "bearer", txt: si["opaque"]}}), never, "srv-accepts-challenge-as-token"},
+				{"client-initiated challenge state as bearer", compose([]param{{k: "bearer", txt: ci["opaque"]}}), never, "srv-accepts-challenge-as-token"},
+				{"challenge state as bearer + challenge-server + public-key", compose(append([]param{{k: "bearer", txt: si["opaque"]}}, csPk...)), never, "srv-accepts-challenge-as-token"},
+				{"bearer token as opaque", compose(append([]param{{k: "opaque", txt: token}, {k: "sig", raw: emptySig()}}, csPk...)), never, "srv-accepts-token-as-challenge"},
 			} {
 				o := sys.Server("S", host, pr.hdr)
+				// whatever this answer carries must not be a token unless a signature was just verified
+				if !o.Accepted {
+					for _, blob := range []string{ParseParams(o.WWW)["opaque"], ParseParams(o.Info)["bearer"]} {
+						if blob == "" {
+							continue
+						}
+						res.Inc("time_matrix_requests", 1)
+						if o2 := sys.Server("S", host, compose([]param{{k: "bearer", txt: blob}})); o2.Accepted {
+							res.AddMismatch(vfh.Mismatch{Class: "srv-accepts-challenge-as-token", Walk: -1, What: fmt.Sprintf("the blob the server emitted in answer to a %s of age %v (TokenTTL %v), without verifying any signature, is accepted as a bearer token for %s",
+								pr.what, age, ttl, keys.nameOfID(o2.Peer)), Expected: "rejected", Got: map[string]any{"first": pr.hdr, "blob": blob}})
+						}
+					}
+				}
 				res.Inc("time_matrix_requests", 1)
 				res.Case(fmt.Sprintf("time|%s|ttl=%v|age-life=%v|%v", pr.what, ttl, age-pr.life, o.Accepted))
 				minted := ParseParams(o.Info)["bearer"] != ""
@@ -527,7 +556,7 @@ func TimeMatrix(mk func(*World) System, res *vfh.Result, profile string) error {
 				case age > pr.life && (o.Accepted || minted):
 					res.AddMismatch(vfh.Mismatch{Class: pr.cls, Walk: -1, What: fmt.Sprintf("a %s of age %v (lifetime %v, TokenTTL %v, challenge lifetime %v) is accepted (peer reported: %v, token minted: %v)",
 						pr.what, age, pr.life, ttl, ChallengeTTL, o.Accepted, minted), Expected: "rejected", Got: map[string]any{"reported": keys.nameOfID(o.Peer), "age": age.String(), "TokenTTL": ttl.String()}})
-				case age <= pr.life && !o.Accepted:
+				case age <= pr.life && !o.Accepted && pr.life != never:
 					res.AddMismatch(vfh.Mismatch{Class: "L2:rejects-unexpired", Walk: -1, What: fmt.Sprintf("a %s of age %v (lifetime %v, TokenTTL %v) is refused: %s", pr.what, age, pr.life, ttl, o.Detail)})
 				}
 			}
@@ -677,7 +706,8 @@ type run struct {
 	demand        int
 	skipped       bool    // set when the current step could not be concretised
 	extras        []param // parameters the attacker may add although the server must not read them in this state
-	extraNotEquiv bool    // the extra challenge-server parameter changes the expected outcome
+	inFollowUp    bool
+	extraNotEquiv bool // the extra challenge-server parameter changes the expected outcome
 }
 
 const aNonceStr = "QXR0YWNrZXJDaG9zZW5DaGFsbGVuZ2VfMDEyMzQ1Njc4OV8="
@@ -1417,8 +1447,83 @@ func (r *run) serverRequest(srv, host, hdr string, c cands, what string) ServerO
 		if p := ParseParams(o.Info); p["bearer"] != "" {
 			r.noteToken(srv, o.Peer, p["bearer"])
 		}
+	} else if ParseParams(o.Info)["bearer"] != "" {
+		r.mismatch("srv-mints-token-without-report", "a bearer token is handed out although no peer was reported ("+what+")", "no token", map[string]any{"header": hdr, "info": o.Info})
+	}
+	// a challenge state emitted in answer to ANY request (mixed-state headers, the handler's 401s) is a
+	// challenge of this server from now on - never a token
+	if p := ParseParams(o.WWW); p["opaque"] != "" && p["challenge-client"] != "" {
+		raw := unB64(p["opaque"])
+		known := false
+		for i := len(r.chals) - 1; i >= 0 && !known; i-- {
+			known = bytes.Equal(r.chals[i].blob, raw)
+		}
+		if !known && raw != nil {
+			var cpk []byte
+			if p["sig"] != "" && len(c.pks) > 0 { // the server signed: client-initiated state, bound to the request's key
+				cpk = c.pks[len(c.pks)-1]
+			}
+			r.noteMint(srv, host, p, cpk)
+		}
 	}
 	return o
+}
+
+// followUp: cross-field reuse.  Every blob the answer carries (the opaque of WWW-Authenticate, the bearer
+// of Authentication-Info) is tried in every slot that takes a blob - as bearer, and as opaque with the
+// attacker's signature over the challenge that came with it - now and just past each lifetime.  The
+// ledger decides: a blob emitted without a fresh verified signature is never a token.
+func (r *run) followUp(srv, host string, o ServerObs, forced bool, class string) {
+	if r.inFollowUp {
+		return
+	}
+	type em struct{ b64, chal string }
+	var ems []em
+	if p := ParseParams(o.WWW); p["opaque"] != "" {
+		ems = append(ems, em{p["opaque"], p["challenge-client"]})
+	}
+	if p := ParseParams(o.Info); p["bearer"] != "" {
+		ems = append(ems, em{p["bearer"], ""})
+	}
+	if len(ems) == 0 {
+		return
+	}
+	if !forced && !r.full("followup/"+class, map[bool]int{false: 25, true: 300}[vfh.Thorough()]) {
+		return
+	}
+	r.inFollowUp = true
+	defer func() { r.inFollowUp = false }()
+	now := r.sys.Now()
+	ages := []time.Duration{0, ChallengeTTL + time.Nanosecond, r.w.TokenTTL + time.Nanosecond, min(ChallengeTTL, r.w.TokenTTL)}
+	for _, e := range ems {
+		raw := unB64(e.b64)
+		if raw == nil {
+			continue
+		}
+		sg, err := r.w.Keys.Priv["kA"].Sign(Payload("cli", []byte(e.chal), r.w.SrvPubB(srv), host))
+		if err != nil {
+			panic(err)
+		}
+		r.addSig("kA", "cli", []byte(e.chal), r.w.SrvPubB(srv), host, sg)
+		slots := [][]param{
+			{{k: "bearer", raw: raw}},
+			{{k: "public-key", raw: r.w.Keys.PubB["kA"]}, {k: "opaque", raw: raw}, {k: "sig", raw: sg}, {k: "challenge-server", txt: aNonceStr}},
+			{{k: "bearer", raw: raw}, {k: "challenge-server", txt: aNonceStr}, {k: "public-key", raw: r.w.Keys.PubB["kA"]}},
+		}
+		for i, age := range ages {
+			for _, ps := range slots {
+				run := func() {
+					r.serverRequest(srv, host, compose(ps), candsOf(ps), fmt.Sprintf("cross-field reuse of an emitted blob as %s at age %v", ps[0].k, age))
+				}
+				if i == 0 {
+					run()
+				} else if !r.sys.At(now.Add(age), run) {
+					break
+				}
+				r.res.Inc("cross_field_requests", 1)
+			}
+		}
+	}
 }
 
 func (r *run) doServerOp(op vfh.Op, post []any) {
@@ -1448,6 +1553,7 @@ func (r *run) doServerOp(op vfh.Op, post []any) {
 		ot := op.L("o")
 		r.blobs[fmt.Sprint(ot)] = b
 		r.nonce[int(ot[4].(float64))] = p["challenge-client"]
+		defer r.followUp(srv, host, o, true, name)
 		r.lastChal = b.b64
 		if !bytes.Equal(unB64(p["public-key"]), r.w.SrvPubB(srv)) {
 			r.mismatch("L2:server-public-key", "public-key parameter is not the server's key", B64(r.w.SrvPubB(srv)), p["public-key"])
@@ -1489,6 +1595,30 @@ func (r *run) doServerOp(op vfh.Op, post []any) {
 			}
 		} else {
 			ps = append(ps, param{k: "bearer", raw: b.raw})
+		}
+		mix := op.S("mix")
+		forced := false
+		if mix != "" && mix != "none" {
+			// mixed-state header: parameters of other protocol states next to the ones that select the state
+			forced = true
+			if name == "verify" {
+				if tb := r.blobs[fmt.Sprint(op.L("b"))]; tb != nil {
+					ps = append(ps, param{k: "bearer", raw: tb.raw})
+				} else {
+					r.skip("token " + fmt.Sprint(op.L("b")) + " was never issued")
+					return
+				}
+			} else {
+				ps = append(ps, param{k: "challenge-server", txt: aNonceStr}, param{k: "public-key", raw: r.w.Keys.PubB["kA"]})
+				if strings.HasPrefix(mix, "o+") && r.lastChal != "" {
+					ps = append(ps, param{k: "opaque", raw: unB64(r.lastChal)})
+				}
+				if strings.HasPrefix(mix, "sig+") {
+					sg, _ := r.w.Keys.Priv["kA"].Sign(Payload("cli", []byte(aNonceStr), r.w.SrvPubB(srv), host))
+					ps = append(ps, param{k: "sig", raw: sg})
+				}
+			}
+			r.res.Inc("mixed_state_requests", 1)
 		}
 		r.extras, r.extraNotEquiv = nil, false
 		if name == "verify" {
@@ -1564,6 +1694,7 @@ func (r *run) doServerOp(op vfh.Op, post []any) {
 			} else if wantRes == "expired" {
 				r.timeProbes(srv, host, name, ps, b)
 			}
+			r.followUp(srv, host, o, forced, name+"/"+got)
 			r.reencodings(srv, host, name, ps, o)
 			return
 		}
